@@ -229,4 +229,7 @@ Render(s) == RenderSeq(Parse(s))
 \* everything before the first error marker is what renders before the error (C11: the prefix survives)
 RECURSIVE UpToErr(_)
 UpToErr(t) == IF t = <<>> \/ Head(t) = "<ERR>" THEN <<>> ELSE <<Head(t)>> \o UpToErr(Tail(t))
+\* (A record encoded while its thread ends - from the destructor of a thread-local scope guard - has the same value
+\* for every formatter that describes record and thread.  The replay does that for patterns without date and MDC; what
+\* chrono and log-mdc do once their own thread-locals are gone is theirs.)
 =============================================================================
